@@ -18,6 +18,10 @@
 
 #include "analyzerinfo.h"
 
+#ifdef DANMAR_CPPCHECK_VERIF
+#include "verifhook.hpp"
+#endif
+
 #include "errorlogger.h"
 #include "filesettings.h"
 #include "path.h"
@@ -82,6 +86,9 @@ void AnalyzerInformation::close()
     if (mOutputStream.is_open()) {
         mOutputStream << "</analyzerinfo>\n";
         mOutputStream.close();
+#ifdef DANMAR_CPPCHECK_VERIF
+        verifhook::crashPoint("cacheclose");
+#endif
     }
 }
 
@@ -195,6 +202,12 @@ bool AnalyzerInformation::analyzeFile(const std::string &buildDir, const std::st
         throw std::runtime_error("failed to open '" + analyzerInfoFile + "'");
     mOutputStream << "<?xml version=\"1.0\"?>\n";
     mOutputStream << "<analyzerinfo hash=\"" << hash << "\">\n";
+#ifdef DANMAR_CPPCHECK_VERIF
+    if (verifhook::crashNow("cacheopen")) {
+        mOutputStream.flush();
+        _exit(137);
+    }
+#endif
 
     return true;
 }
@@ -203,12 +216,24 @@ void AnalyzerInformation::reportErr(const ErrorMessage &msg)
 {
     if (mOutputStream.is_open())
         mOutputStream << msg.toXML() << '\n';
+#ifdef DANMAR_CPPCHECK_VERIF
+    if (mOutputStream.is_open() && verifhook::crashNow("cachewrite")) {
+        mOutputStream.flush();
+        _exit(137);
+    }
+#endif
 }
 
 void AnalyzerInformation::setFileInfo(const std::string &check, const std::string &fileInfo)
 {
     if (mOutputStream.is_open() && !fileInfo.empty())
         mOutputStream << "  <FileInfo check=\"" << check << "\">\n" << fileInfo << "  </FileInfo>\n";
+#ifdef DANMAR_CPPCHECK_VERIF
+    if (mOutputStream.is_open() && !fileInfo.empty() && verifhook::crashNow("cachewrite")) {
+        mOutputStream.flush();
+        _exit(137);
+    }
+#endif
 }
 
 // TODO: report detailed errors?
@@ -312,5 +337,9 @@ void AnalyzerInformation::reopen(const std::string &buildDir, const std::string 
     content.resize(content.find("</analyzerinfo>"));
 
     mOutputStream.open(analyzerInfoFile, std::ios::trunc);
+#ifdef DANMAR_CPPCHECK_VERIF
+    if (verifhook::crashNow("cachereopen"))
+        _exit(137);
+#endif
     mOutputStream << content;
 }
